@@ -488,8 +488,17 @@ def build_unit(unit_dir, out_path, units_dir=None, canary=None):
     out.append('use vstd::prelude::*;\n')
     out.append(rd('outer.rs'))
     out.append('\nverus! {\nglobal size_of usize == 8; // usize is 64 bit (stated assumption)\n')
+    def expand_contracts(text, where):
+        # `//@contract <key>` in an included prelude is replaced by the shared contract text of units/contracts.toml,
+        # so that a stub and the unit that proves the function use one and the same text
+        def rep(m):
+            key = m.group(1)
+            if key not in contracts:
+                raise ExtractError("unknown shared contract %s in %s" % (key, where))
+            return contracts[key]['contract'].rstrip() + '\n'
+        return re.sub(r'^[ \t]*//@contract[ \t]+(\S+)[ \t]*\n', rep, text, flags=re.M)
     for inc in spec.get('include', []):
-        out.append(open(os.path.join(units_dir, inc)).read())
+        out.append(expand_contracts(open(os.path.join(units_dir, inc)).read(), inc))
         out.append('\n')
     out.append(rd('prelude.rs'))
     out.append('\n')
